@@ -103,6 +103,18 @@ def build_class(run, cs):
 
             craw.__name__ = mn
             ns[mn] = classmethod(craw)
+        elif k == "prop_ext":
+            # a subclass extending a property of its base with a setter: @Base.prop.setter
+            import inspect as _inspect
+
+            bp = _inspect.getattr_static(base, mn)
+            s2 = mk_method(mn)
+
+            def fset2(self, value, _s=s2):
+                _s(self)
+
+            fset2.__name__ = mn
+            ns[mn] = bp.setter(fset2)
         elif k == "prop":
             g = mk_method(mn)
 
@@ -275,7 +287,7 @@ def expected(scn, cname, op):
     """(before set, after set) the model demands for ``op`` on an instance of ``cname``; None = not compared."""
     al, oc, os_ = inv_sets(scn, cname)
     kind = op["op"]
-    if kind == "new":
+    if kind in ("new", "reinit"):
         return set(), set(al)
     if kind in ("call", "acall"):
         mk = member_kind(scn, cname, op["member"])
@@ -348,6 +360,16 @@ def generate(r, tier):
         else:
             c["init"] = None
         gen_members(c, lvl)
+        # sometimes extend a read-only property of an ancestor with a setter (@Base.prop.setter)
+        ro = []
+        for anc in classes:
+            for m in anc["members"]:
+                if m["kind"] == "prop" and not m.get("set"):
+                    ro.append(m["name"])
+        if ro and r.random() < 0.5:
+            pn = r.choice(ro)
+            if not any(x["name"] == pn for x in c["members"]):
+                c["members"].append({"name": pn, "kind": "prop_ext", "set": True})
         # sometimes override a base's public method
         base_methods = [m for m in prev["members"] if m["kind"] in ("method",)]
         if base_methods and r.random() < 0.5:
@@ -359,6 +381,7 @@ def generate(r, tier):
     scn = {"property": ID, "engine": engine, "classes": classes, "ops": []}
     # operations
     objs = {}
+    failed = {}
     nobj = 0
     ops = []
     for i in range(r.randint(3, 12)):
@@ -375,9 +398,19 @@ def generate(r, tier):
                 chain = [x for x in hierarchy(scn, c["name"]) if x.get("init") is not None]
                 if chain:
                     op["ctor_raise"] = r.choice(chain)["name"] + ".__init__"
+            if "ctor_raise" in op and r.random() < 0.5:
+                op["drop"] = True  # forget the failed object entirely (its address may be reused by the next instance)
             ops.append(op)
             if "ctor_raise" not in op and "flags" not in op:
                 objs[label] = c["name"]
+            elif "ctor_raise" in op and not op.get("drop"):
+                failed[label] = c["name"]
+            continue
+        if failed and r.random() < 0.3:
+            # two-phase initialisation: run the constructor again on the object whose construction failed
+            label = r.choice(sorted(failed))
+            ops.append({"op": "reinit", "obj": label})
+            objs[label] = failed.pop(label)
             continue
         label = r.choice(sorted(objs))
         cname = objs[label]
@@ -396,8 +429,8 @@ def generate(r, tier):
             ops.append({"op": "repr", "obj": label})
         elif members:
             m = r.choice(members)
-            if m["kind"] == "prop":
-                acc = ["get"] + (["set"] if m.get("set") else []) + (["del"] if m.get("del") else [])
+            if m["kind"] in ("prop", "prop_ext"):
+                acc = ["get"] + (["set", "set"] if m.get("set") else []) + (["del"] if m.get("del") else [])
                 op = {"op": r.choice(acc), "obj": label, "member": m["name"]}
             elif m["kind"] == "amethod":
                 op = {"op": "acall", "obj": label, "member": m["name"]}
@@ -432,6 +465,8 @@ def _ticket(scn, op, i, tag="a"):
         if op.get("ctor_raise"):
             td["body"] = {"fault": {"kind": "raise:FaultError", "at": op["ctor_raise"]}}
         return td
+    if kind == "reinit":
+        return {"id": tid, "fn": "__init__", "obj": op["obj"], "op": "reinit"}
     td = {"id": tid, "fn": op.get("member", "-"), "obj": op["obj"], "op": {"call": "call", "acall": "call", "get": "get", "set": "set", "del": "del", "setattr": "setattr", "repr": "repr"}.get(kind, kind)}
     body = {}
     if op.get("raise"):
@@ -479,6 +514,8 @@ def _resolve_c03(run, scn):
         fn = td["fn"]
         tx.info = {"kind": op}
         unit = world.defining_unit(cls, fn) if fn != "-" else "%s.%s" % (cls.__name__, op)
+        if op == "reinit":
+            return (lambda: obj.__init__(tx.t)), unit, td["obj"]
         if op == "call":
             if fn == "__len__":
                 return (lambda: len(obj)), unit, td["obj"]
@@ -505,6 +542,24 @@ def _resolve_c03(run, scn):
     world.is_async = lambda td: td.get("op") == "call" and td.get("fn", "").startswith("am")
 
 
+def _forget(run, label, out):
+    """Drop every reference the harness holds to a failed object, so that its address can be reused."""
+    import gc
+
+    o = run.world.objects.pop(label, None)
+    if o is not None:
+        run.side.pop(id(o), None)
+        run.idmap.pop(id(o), None)
+    e = out.get("exc_obj")
+    if e is not None:
+        e.__traceback__ = None
+        out["exc_obj"] = None
+    for x in run.injected + run.fired_excs:
+        x.__traceback__ = None
+    del o, e
+    gc.collect()
+
+
 def _execute(scn):
     run = core.Run({})
     for cs in scn["classes"]:
@@ -521,7 +576,9 @@ def _execute(scn):
             return
         if op["op"] != "new" and op["obj"] not in run.world.objects:
             return
-        run.call(_ticket(scn, op, i, tag))
+        out = run.call(_ticket(scn, op, i, tag))
+        if op["op"] == "new" and op.get("drop") and out["verdict"][0] != "ret":
+            _forget(run, op["obj"], out)
 
     if scn.get("engine") == "sync":
 
@@ -679,7 +736,7 @@ def judge(scn, run):
                 ok = v[0] == "exc" and v[2] in (falsy & ea)
                 if not ok:
                     violations.append({"rule": "C03.R2", "classifier": "falsy-after-not-reported:%s:%s" % (op["op"], mk), "detail": {"op": op, "class": cname, "falsy": sorted(falsy & ea), "verdict": v}})
-        if op["op"] == "new" and v[0] != "ret":
+        if op["op"] == "new" and v[0] != "ret" and not (op.get("ctor_raise") and not op.get("drop")):
             cls_of.pop(label, None)
     return violations, shapes
 
